@@ -2,6 +2,7 @@
 From Coq Require Import ZArith NArith List Bool String.
 From DM Require Import Base.PyVal Spec.Nf Spec.Table Spec.Ops Proofs.TableFacts Proofs.OpFacts.
 From DM Require Import Model.LTable Gen.KCore Model.Core Proofs.CoreRefine.
+From DM Require Import Spec.SeriesEnc Proofs.SeriesEncFacts.
 Import ListNotations.
 
 Theorem C04_length_kept : forall ps xs cells, List.length (write_at ps xs cells) = List.length cells.
@@ -66,6 +67,42 @@ Theorem C04_getrow_bound_kernel : forall i n,
   k_getrow_oob i (Z.of_nat n) = match norm_index n i with Some _ => false | None => true end.
 Proof. exact getrow_oob_spec. Qed.
 Print Assumptions C04_getrow_bound_kernel.
+
+(* SeriesColumns (Spec/SeriesEnc.v): dm[name][a] = v -- a scalar, one depth-long series for every addressed row, one
+   number per addressed row or a rows x depth matrix, addressed by integer, slice, index list, selection or Row --
+   leaves the row ids, the names and every column that is not a sample of that series as they are ... *)
+Theorem C04_series_write_touches_only_its_series : forall w t tb name d a v,
+  get w t = Some tb -> svalue_fits v d = true ->
+  Forall (fun j => has_name tb (sname name j) = true) (upto (Nat.max 1 d)) ->
+  exists tb', get (fst (sstep w (SSet t name d a v))) t = Some tb'
+              /\ untouched (series_slots tb name (upto (Nat.max 1 d))) tb tb'.
+Proof. exact sset_touches_only_its_series. Qed.
+Print Assumptions C04_series_write_touches_only_its_series.
+
+(* ... dm[name][a, j] = v touches only the addressed samples ... *)
+Theorem C04_series_sample_write_touches_only_its_samples : forall w t tb name a js r,
+  get w t = Some tb ->
+  Forall (fun j => has_name tb (sname name j) = true) js ->
+  exists tb', get (fst (sstep w (SSetSample t name a js r))) t = Some tb'
+              /\ untouched (series_slots tb name js) tb tb'.
+Proof. exact ssetsample_touches_only_its_samples. Qed.
+Print Assumptions C04_series_sample_write_touches_only_its_samples.
+
+(* ... and no series operation changes another DataMatrix *)
+Theorem C04_series_other_tables_unchanged : forall w so j,
+  (j < List.length (pool w))%nat -> starget so <> Some j -> get (fst (sstep w so)) j = get w j.
+Proof. exact sstep_frame. Qed.
+Print Assumptions C04_series_other_tables_unchanged.
+
+(* one depth-long series through an index list: every addressed row receives the whole series *)
+Example C04_series_example :
+  match nth_error (pool (srun [SPlain (ONew 3); SNew 0 "s" 2 0; SSet 0 "s" 2 (AList [2; 0]%Z) (SVSeries [PInt 1; PInt 2])] w0)) 0 with
+  | Some t => map (fun '(n, _, c) => (n, c)) (view t) =
+              [("s#0", [VFlt (FFin false 1 0); VFlt FNan; VFlt (FFin false 1 0)]);
+               ("s#1", [VFlt (FFin false 1 1); VFlt FNan; VFlt (FFin false 1 1)])]
+  | None => False
+  end.
+Proof. vm_compute. reflexivity. Qed.
 
 Example C04_example : write_at [2; 0]%nat [VInt 7; VInt 8] [VNone; VNone; VNone; VNone] = [VInt 8; VNone; VInt 7; VNone].
 Proof. reflexivity. Qed.
